@@ -1,9 +1,128 @@
+/-
+  C08 — diff: the output is a correct, well-formed unified diff.
+
+  All theorems are about the executable model `GIV.Model.Diff` (tied to /repo/diff/diff.go by the
+  regenerated facts in `GIV.Gen.Diff` and by the byte-exact correspondence run), for arbitrary
+  inputs: any line type with decidable equality, any two line lists, no size bound.
+-/
 import GIV.Model.Diff
+import GIV.Lemmas.DiffLines
+import GIV.Lemmas.DiffScript
+import GIV.Lemmas.DiffLoop
+import GIV.Lemmas.DiffWF
+import GIV.Lemmas.DiffRender
+
 namespace GIV.C08
 open GIV GIV.Diff
 
 /-- The tags and the context size the property talks about are the ones in the source. -/
 theorem facts_pinned : Gen.Diff.C = 3 ∧ Gen.Diff.tagCtx = 32 ∧ Gen.Diff.tagCtxClose = 32 ∧ Gen.Diff.tagCtxOpen = 32 ∧
     Gen.Diff.tagDel = 45 ∧ Gen.Diff.tagIns = 43 := by decide
+
+/-! ### texts and lines -/
+
+/-- `lines` loses nothing: the text is recovered from its lines, also when it lacks the final
+newline (the last line then carries the "\ No newline at end of file" warning, which `unlines` strips). -/
+theorem unlines_lines (b : Bytes) : unlines (lines b) = b := unlines_lines' b
+
+/- "a\nb" ↦ ["a\n", "b" ++ "\n\\ No newline at end of file\n"] and back -/
+example : lines [97, 10, 98] = [[97, 10], 98 :: noNewline] ∧ unlines [[97, 10], 98 :: noNewline] = [97, 10, 98] := by decide
+
+/-- Different texts have different line lists (so a statement about line lists is one about texts). -/
+theorem lines_inj {a b : Bytes} : lines a = lines b ↔ a = b := ⟨lines_injective, fun h => h ▸ rfl⟩
+
+example : lines [97] ≠ lines [97, 10] := by decide
+
+/-! ### the shortcut and the header -/
+
+/-- What `Diff` prints for different texts: the three header lines, then the hunks of `diffHunks`. -/
+theorem diff_output (n₁ a n₂ b : Bytes) (h : a ≠ b) :
+    diff n₁ a n₂ b = (diffHunks (lines a) (lines b)).map fun hs => headerBytes n₁ n₂ ++ (hs.map hunkBytes).flatten := by
+  unfold diff
+  rw [if_neg h]
+  cases diffHunks (lines a) (lines b) with
+  | none => rfl
+  | some hs => simp [render_eq]
+
+/-- Diff returns nothing exactly when the two texts are byte-identical. -/
+theorem diff_nil_iff (n₁ a n₂ b : Bytes) : diff n₁ a n₂ b = some [] ↔ a = b := by
+  constructor
+  · intro h
+    by_cases hab : a = b
+    · exact hab
+    · rw [diff_output _ _ _ _ hab] at h
+      cases hd : diffHunks (lines a) (lines b) with
+      | none => simp [hd] at h
+      | some hs =>
+        simp only [hd, Option.map_some, Option.some.injEq, List.append_eq_nil_iff] at h
+        exact absurd h.1 (headerBytes_ne_nil _ _)
+  · intro h
+    simp [diff, h]
+
+example : diff [111] [97, 10] [110] [97, 10] = some [] ∧ diff [111] [97, 10] [110] [97] ≠ some [] := by
+  constructor
+  · decide
+  · rw [Ne, diff_nil_iff]; decide
+
+/-- The header is `diff old new`, `--- old`, `+++ new`, each on its own line
+(bytes: "diff " = 100 105 102 102 32, "--- " = 45 45 45 32, "+++ " = 43 43 43 32, "\n" = 10). -/
+theorem diff_header (o n : Bytes) : headerBytes o n =
+    ([100, 105, 102, 102, 32] ++ o ++ [32] ++ n ++ [10]) ++ ([45, 45, 45, 32] ++ o ++ [10]) ++ ([43, 43, 43, 32] ++ n ++ [10]) := by
+  simp [headerBytes]
+
+example : headerBytes [97] [98] = [100, 105, 102, 102, 32, 97, 32, 98, 10, 45, 45, 45, 32, 97, 10, 43, 43, 43, 32, 98, 10] := by
+  decide
+
+/-! ### the hunks, given a correct match sequence -/
+
+section
+set_option linter.unusedSectionVars false
+variable {α : Type} [DecidableEq α]
+
+/-- What the hunk loop needs from `tgs`: the sequence is `(0,0)`, then anchors (equal lines that
+are unique in `x` and in `y`), strictly increasing in both coordinates, then `(|x|, |y|)`. -/
+structure TgsSpec (x y : List α) (s : List (Nat × Nat)) : Prop where
+  shape : ∃ mid, s = (0, 0) :: mid ++ [(x.length, y.length)] ∧ (∀ p ∈ mid, Anchor x y p) ∧
+    mid.Pairwise (fun p q => p.1 < q.1 ∧ p.2 < q.2)
+
+theorem TgsSpec.msOK {x y : List α} {s : List (Nat × Nat)} (t : TgsSpec x y s) : MsOK x y s := by
+  obtain ⟨mid, rfl, hanch, hmono⟩ := t.shape
+  have hin : ∀ p ∈ mid, p.1 < x.length ∧ p.2 < y.length := by
+    intro p hp
+    obtain ⟨a, h1, h2, _⟩ := hanch p hp
+    exact ⟨(List.getElem?_eq_some_iff.mp h1).1, (List.getElem?_eq_some_iff.mp h2).1⟩
+  refine ⟨?_, ?_, by simp⟩
+  · intro m hm
+    simp only [List.cons_append, List.mem_cons, List.mem_append, List.mem_nil_iff, or_false] at hm
+    rcases hm with rfl | hm | rfl
+    · exact ⟨Nat.zero_le _, Nat.zero_le _, Or.inr (Or.inl rfl)⟩
+    · have := hin m hm
+      exact ⟨by omega, by omega, Or.inr (Or.inr (hanch m hm))⟩
+    · exact ⟨Nat.le_refl _, Nat.le_refl _, Or.inl rfl⟩
+  · rw [List.cons_append, List.pairwise_cons]
+    refine ⟨fun _ _ => Nat.zero_le _, ?_⟩
+    rw [List.pairwise_append]
+    refine ⟨hmono.imp (fun h => by omega), by simp, ?_⟩
+    intro p hp q hq
+    simp only [List.mem_cons, List.mem_nil_iff, or_false] at hq
+    subst hq
+    have := hin p hp
+    simp only
+    omega
+
+/-- No panic in the hunk loop, and its hunks form an edit script from `x` to `y`. -/
+theorem diffHunks_script_of_tgs {x y : List α} {s : List (Nat × Nat)} (ht : tgs x y = some s) (hs : TgsSpec x y s) :
+    ∃ hs, diffHunks x y = some hs ∧ Script 0 0 x y hs := by
+  unfold diffHunks
+  rw [ht]
+  exact loop_ok s {} hs.msOK (Inv.init x y s)
+
+/-- The printed hunks, applied to `x` by a strict patch applier, give `y`; applied in reverse to `y`, give `x`. -/
+theorem diff_applies_of_tgs {x y : List α} {s : List (Nat × Nat)} (ht : tgs x y = some s) (hs : TgsSpec x y s) :
+    ∃ hs, diffHunks x y = some hs ∧ apply x hs = some y ∧ unapply y hs = some x := by
+  obtain ⟨hs, h1, h2⟩ := diffHunks_script_of_tgs ht hs
+  exact ⟨hs, h1, h2.apply, h2.unapply⟩
+
+end
 
 end GIV.C08
